@@ -113,17 +113,13 @@ theorem zeroLines_zero : ∀ (ls : List Nat) (m : List (Nat × Nat)), (∀ q ∈
       · exact hm q h
 
 theorem addLineCount_executed {f : Func} {c : Cnt} {ex : Bool} {ls : List (Nat × Nat)}
-    (h : addLineCount f c = ok (ex, ls)) : ex = decide (c.arc 0 > 0) := by
+    (h : addLineCount f c = ok (ex, ls)) : ex = entered f c := by
   unfold addLineCount at h
-  cases ha : f.arcs with
-  | nil => rw [ha] at h; cases h
-  | cons a as =>
-    rw [ha] at h; simp only at h
-    split at h
-    · rename_i hx
-      obtain ⟨l, _, h2⟩ := bind_eq_ok.1 h
-      cases h2; exact hx.symm
-    · rename_i hx; cases h; simp at hx; simp [hx]
+  split at h
+  · rename_i hx
+    obtain ⟨l, _, h2⟩ := bind_eq_ok.1 h
+    cases h2; exact hx.symm
+  · rename_i hx; cases h; simpa using hx
 
 theorem finStep_notRun {br : Bool} {res res' : List (Bytes × Cov)} {f : Func} {c : Cnt}
     (h : finStep br res (f, c) = ok res') (hc : c.arc 0 = 0) (hres : NotRun res) : NotRun res' := by
@@ -131,7 +127,7 @@ theorem finStep_notRun {br : Bool} {res res' : List (Bytes × Cov)} {f : Func} {
   simp only at h
   obtain ⟨⟨ex, lines⟩, h1, h2⟩ := bind_eq_ok.1 h
   simp only at h2
-  have hex : ex = false := by rw [addLineCount_executed h1, hc]; rfl
+  have hex : ex = false := by rw [addLineCount_executed h1]; simp [entered, hc]
   subst hex
   obtain ⟨ls, h3, h4⟩ := bind_eq_ok.1 h2
   obtain ⟨brs, h5, h6⟩ := bind_eq_ok.1 h4
@@ -202,7 +198,7 @@ def fnAt (res : List (Bytes × Cov)) (k : Bytes) (n : Name) : Option Fn :=
 
 theorem finStep_fnAt {br : Bool} {res res' : List (Bytes × Cov)} {f : Func} {c : Cnt}
     (h : finStep br res (f, c) = ok res') (k : Bytes) (n : Name) :
-    fnAt res' k n = if f.fileName = k ∧ f.name = n then some ⟨f.startLine, decide (c.arc 0 > 0)⟩
+    fnAt res' k n = if f.fileName = k ∧ f.name = n then some ⟨f.startLine, entered f c⟩
       else fnAt res k n := by
   unfold finStep at h
   simp only at h
@@ -242,12 +238,12 @@ theorem foldl_finStep_fnAt_other (br : Bool) (k : Bytes) (n : Name) :
     rw [if_neg this]
 
 /-- the function at position `i`, unless a later function has the same file and name, is reported
-with its own start line and `executed = (first arc count > 0)` -/
+with its own start line and `executed = entered` (it has an arc and its first arc count is > 0) -/
 theorem foldl_finStep_fnAt (br : Bool) : ∀ (fcs : List (Func × Cnt)) (res r : List (Bytes × Cov))
     (pre post : List (Func × Cnt)) (f : Func) (c : Cnt), fcs = pre ++ (f, c) :: post →
     Outcome.foldl (finStep br) res fcs = ok r →
     (∀ fc ∈ post, ¬ (fc.1.fileName = f.fileName ∧ fc.1.name = f.name)) →
-      fnAt r f.fileName f.name = some ⟨f.startLine, decide (c.arc 0 > 0)⟩ := by
+      fnAt r f.fileName f.name = some ⟨f.startLine, entered f c⟩ := by
   intro fcs res r pre
   induction pre generalizing fcs res with
   | nil =>
